@@ -58,31 +58,6 @@ def Permitted : Tok → Prop
   | .free .growth _ => True
   | _ => False
 
-theorem mem_allocLog {s : State} {t : Tok} : t ∈ allocLog s ↔ t ∈ s.out ∧ isEv t = true := by
-  simp [allocLog, List.mem_filter]
-
-theorem three_le_inline : 3 ≤ inlineCount := c20_inline_count.1
-
-theorem permitted_or_rq {t : Tok} (hs : t.shapeOk) (he : isEv t = true) : Permitted t ∨ t.isRq := by
-  cases t with
-  | act j l => simp [isEv] at he
-  | cb i => simp [isEv] at he
-  | alloc c n held =>
-    cases c with
-    | frame => left; exact hs
-    | growth =>
-      left
-      have := three_le_inline
-      exact ⟨Nat.le_trans this hs.1, hs.2⟩
-    | rq => right; trivial
-    | other => exact absurd hs (by simp [Tok.shapeOk])
-  | free c n =>
-    cases c with
-    | frame => left; exact hs
-    | growth => left; trivial
-    | rq => right; trivial
-    | other => exact absurd hs (by simp [Tok.shapeOk])
-
 /-- **C20 modulo the listed finding.**  For every core program, on either kind of thread: every allocation or release
 in the log is the frame of a coroutine / generator (exactly one block), or the handle array of a suspend point that
 held at least three handles when it grew (size `held * growthFactor`), or belongs to the thread-local ready queue.
@@ -93,7 +68,24 @@ theorem c20_core_no_alloc_partial (fuel : Nat) (fresh : Bool) (prog : List Op) :
   intro t ht
   have h := inv_run fuel fresh prog
   rw [mem_allocLog] at ht
-  exact permitted_or_rq (h.shape t ht.1) ht.2
+  have hs := h.shape t ht.1
+  have he := ht.2
+  have h3 : 3 ≤ inlineCount := c20_inline_count.1
+  cases t with
+  | act j l => simp [isEv] at he
+  | cb i => simp [isEv] at he
+  | alloc c n held =>
+    cases c with
+    | frame => left; exact hs
+    | growth => left; exact ⟨Nat.le_trans h3 hs.1, hs.2⟩
+    | rq => right; trivial
+    | other => exact absurd hs (by simp [Tok.shapeOk])
+  | free c n =>
+    cases c with
+    | frame => left; exact hs
+    | growth => left; trivial
+    | rq => right; trivial
+    | other => exact absurd hs (by simp [Tok.shapeOk])
 
 /-- **Scope of the finding.**  The ready queue allocates only on a thread that has never used it (its `std::deque` is
 constructed on first use) or from the 64th enqueue on (one 512-byte node per 64 enqueues, the map when it runs out):
@@ -116,17 +108,6 @@ theorem c20_core_no_alloc (fuel : Nat) (prog : List Op) (h64 : (run fuel false p
   rcases c20_core_no_alloc_partial fuel false prog t ht with h | h
   · exact h
   · exact absurd h (c20_ready_queue_scope fuel prog h64 t ht)
-
-theorem nFrameAlloc_filter (l : List Tok) : nFrameAlloc (l.filter isEv) = nFrameAlloc l := by
-  induction l with
-  | nil => rfl
-  | cons t ts ih =>
-    rw [List.filter_cons]
-    cases t with
-    | alloc c n h => simp only [isEv, if_true, nFrameAlloc_cons, ih]
-    | free c n => simp only [isEv, if_true, nFrameAlloc_cons, ih]
-    | act j l => simpa [isEv, nFrameAlloc_cons, Tok.isFrameAlloc] using ih
-    | cb i => simpa [isEv, nFrameAlloc_cons, Tok.isFrameAlloc] using ih
 
 /-- **"The only allocations are the coroutine frames the user creates (and those too disappear under a non-heap
 storage policy)."**  The log has at most one frame allocation per operation that creates a coroutine / generator with a
@@ -176,18 +157,6 @@ theorem c20_no_event_at_all (fuel : Nat) (prog : List Op) (hn : ¬ hasHeapCreate
   | free c n => cases c <;> simp_all [Permitted, Tok.isFrame, Tok.isGrowth]
 
 /-! ### the finding, and non-vacuity -/
-
-def isRqB : Tok → Bool
-  | .alloc .rq _ _ => true
-  | .free .rq _ => true
-  | _ => false
-
-theorem isRqB_iff (t : Tok) : isRqB t = true ↔ t.isRq := by
-  cases t with
-  | alloc c n h => cases c <;> simp [isRqB, Tok.isRq]
-  | free c n => cases c <;> simp [isRqB, Tok.isRq]
-  | act j l => simp [isRqB, Tok.isRq]
-  | cb i => simp [isRqB, Tok.isRq]
 
 /-- on a fresh thread: one future, one non-heap coroutine awaiting it, resolve -/
 def progFresh : List Op := [.fut 0, .co 0 false none [.await 0], .res 0 .v, .fin]
